@@ -204,6 +204,17 @@ def check_case(case):
                 except Exception as e:
                     if not required:
                         out.append((f"{name}/optional-none-rejected-{nm}", f"{T!r}.{nm}(None) raised {e!r}"))
+        elif op == "bad-value" and case.get("why") == "int-subclass":
+            # bool is a subclass of int: the statement lets it be refused (wrong type) or treated as the integer it is,
+            # but whatever is written must be the canonical integer text reading back to that integer
+            v = untag(case["value"])
+            for route in ("unconvert", "convert-then-unconvert"):
+                try:
+                    r = T.unconvert(v if route == "unconvert" else T.convert(v))
+                except Exception:
+                    continue
+                if not (isinstance(r, str) and R.RE_INT.match(r) and int(r) == int(v)):
+                    out.append((f"{name}/int-subclass-written-non-canonically", f"{T!r}: {route}({v!r}) = {r!r}"))
         elif op == "bad-value":
             v = untag(case["value"])
             try:
@@ -396,6 +407,8 @@ def cases(draw):
             if n is not None and draw(st.booleans()):
                 over = draw(st.sampled_from([10**n, 10**n + 7, 10 ** (n + 2), -(10**n), -(10 ** (n + 1)) - 3]))
                 c.update(value=["int", over], why="over-limit-negative" if over < 0 else "over-limit")
+            elif op == "bad-value" and draw(st.integers(0, 3)) == 0:
+                c.update(value=["bool", draw(st.booleans())], why="int-subclass")
             elif op == "bad-value":
                 c.update(value=draw(st.sampled_from([["str", "5"], ["dec", "5"], ["bytes", "5"], ["list", [["int", 1]]]])), why="wrong-type")
             else:
@@ -531,6 +544,7 @@ def _boundary_worker(job):
                     tbl.append(dict(base, type=["Integer", n], op="bad-value", value=["int", 10**n], why="over-limit"))
                     tbl.append(dict(base, type=["Integer", n], op="bad-native", value=["int", 10**n], why="over-limit"))
                     tbl.append(dict(base, type=["Integer", n], op="bad-value", value=["int", -(10**n)], why="over-limit-negative"))
+                    tbl.append(dict(base, type=["Integer", n], op="bad-value", value=["bool", bool(n % 2)], why="int-subclass"))
                     tbl.append(dict(base, type=["Integer", n], op="text", text=str(-(10**n)), expect="reject", keysuffix="/over-limit-negative"))
                 if n <= 9:
                     k = n - 1
